@@ -34,7 +34,7 @@ COQ_IMPORTS = "From Mesa Require Import Model.Rng."
 COQ_CASE_TYPE = "case"
 COQ_RUN = "run_case"
 TABLE_CONSTRUCTS = ["mte_choice_sorted", "global_rng_sites", "rng_sites", "model_init_code", "model_init_skeleton",
-                    "reset_randomizer_code", "reset_rng_code"]
+                    "reset_randomizer_code", "reset_rng_code", "agent_generator_props"]
 ENUM_ALWAYS = False
 REPO = os.environ.get("VERIF_REPO", "/repo")
 
@@ -188,8 +188,13 @@ def snapshot(model):
             if isinstance(v, DiscreteSpace):
                 spaces[k] = [[_canon(c.coordinate), [_canon(n.coordinate) for n in c.connections.values()],
                               [a.unique_id for a in c._agents]] for c in v._cells.values()]
+                layers = getattr(v, "_mesa_property_layers", None)
+                if layers:    # property layers of a cell space (e.g. Sugarscape's sugar / spice, the `empty` layer)
+                    spaces[k + ".property_layers"] = {n: _canon(getattr(lay, "data", None)) for n, lay in layers.items()}
             elif isinstance(v, _Grid):
                 spaces[k] = [[x, y, _canon(v._grid[x][y])] for x in range(v.width) for y in range(v.height) if v._grid[x][y]]
+                if getattr(v, "properties", None):
+                    spaces[k + ".property_layers"] = {n: _canon(getattr(lay, "data", None)) for n, lay in v.properties.items()}
             elif isinstance(v, NetworkGrid):
                 spaces[k] = [sorted(map(repr, v.G.edges)), [[repr(n), _canon(v.G.nodes[n].get("agent"))] for n in v.G.nodes]]
     except Exception as e:  # noqa: BLE001
@@ -202,6 +207,19 @@ def snapshot(model):
         snap["dc_model_vars"] = _canon(dc.model_vars)
         snap["dc_agent_records"] = _canon(getattr(dc, "_agent_records", {}))
         snap["dc_tables"] = _canon(getattr(dc, "tables", {}))
+        # agent-type reporters: {step: {type: [records]}} - the class objects are named
+        atr = getattr(dc, "_agenttype_records", {})
+        snap["dc_agenttype_records"] = _canon({st: {getattr(t, "__name__", str(t)): recs for t, recs in per.items()}
+                                               for st, per in atr.items()})
+        # the frames themselves where they can be built (what the user reads)
+        frames = {}
+        for name in ("get_model_vars_dataframe", "get_agent_vars_dataframe"):
+            try:
+                df = getattr(dc, name)()
+                frames[name] = [[str(c) for c in df.columns], [str(i) for i in df.index[:400]], _canon(df.to_numpy().tolist()[:400])]
+            except Exception as e:  # noqa: BLE001  no reporters of that kind / nothing collected yet
+                frames[name] = ["unavailable", type(e).__name__]
+        snap["dc_frames"] = frames
     return snap
 
 
@@ -234,6 +252,9 @@ def _walk_generators(model):
         out.append((path, getattr(obj, "random", None) is rnd))
 
     chk("model.agents", model.agents)
+    for a in list(model.agents)[:3] + list(model.agents)[-1:]:
+        out.append((f"{type(a).__name__}.random", a.random is rnd))
+        out.append((f"{type(a).__name__}.rng", a.rng is model.rng))
     for t, s in model.agents_by_type.items():
         chk(f"model.agents_by_type[{t.__name__}]", s)
     for name, v in vars(model).items():
@@ -441,7 +462,10 @@ def build_script_model(spec):
         def populate(self, n):
             na = n // 2
             if na:
-                s = KA.create_agents(self, na, [self.random.randrange(10) for _ in range(na)], group=[i % 3 for i in range(na)])
+                if self.random.random() < 0.5:    # arguments drawn from the model's NumPy generator (ndarray path of create_agents)
+                    s = KA.create_agents(self, na, self.rng.integers(0, 10, size=na), group=self.rng.integers(0, 3, size=na))
+                else:
+                    s = KA.create_agents(self, na, [self.random.randrange(10) for _ in range(na)], group=[i % 3 for i in range(na)])
                 for a in s:
                     self.place(a)
             if n - na:
@@ -624,6 +648,12 @@ def _reset_through_collections(form, s):
         out.append(("agent.random.random", repr(a.random.random())))
         if with_rng:
             out.append(("agent.rng.integers", [int(x) for x in a.rng.integers(0, 10**6, size=4)]))
+            out.append(("rng draws by the agents of model.agents.shuffle()", [int(b.rng.integers(1000)) for b in m.agents.shuffle()]))
+            out.append(("rng draws by grid.agents", [repr(float(b.rng.random())) for b in m.grid.agents]))
+            made = RW.create_agents(m, 3, [list(m.grid.all_cells)[int(i)] for i in m.rng.integers(0, 16, size=3)])
+            out.append(("create_agents with rng-derived cells", [list(b.cell.coordinate) for b in made]))
+            for b in list(made):
+                b.remove()
         return out
 
     def identity(m, held):
@@ -712,6 +742,16 @@ def run_reset_job(job):
     out["same_seed_same_stream"] = f2 == first and [int(x) for x in m2.rng.integers(0, 10**9, size=n)] == firstnp
     out["stream"] = _sha([first, firstnp])
     out["coll"] = _reset_through_collections(form, s)
+    # boundary: seed= and rng= both given is rejected with ValueError, and leaves the process-global generators alone
+    g0 = _global_state()
+    try:
+        mesa.Model(seed=s, rng=s)
+        out["both_given"] = "accepted"
+    except ValueError:
+        out["both_given"] = "ValueError"
+    except Exception as e:  # noqa: BLE001
+        out["both_given"] = type(e).__name__
+    out["both_given_global_untouched"] = _global_state() == g0
     return out
 
 
@@ -966,6 +1006,10 @@ def run_env_case(case):
             if cl.get("diff_fresh"):
                 failures.append({"key": f"C01/Model/same-seed-different-draws-through-collections/{form}", "op": i,
                                  "what": f"a second model with {form}={job['seed']} draws differently through its collections: {cl['diff_fresh']}"})
+            if rr.get("both_given", "ValueError") != "ValueError" or rr.get("both_given_global_untouched") is False:
+                failures.append({"key": "C01/Model/seed-and-rng-both-given", "op": i,
+                                 "what": f"Model(seed={job['seed']}, rng={job['seed']}) must raise ValueError without touching the global "
+                                         f"generators: {rr.get('both_given')}, globals untouched: {rr.get('both_given_global_untouched')}"})
             if rr["rng_explicit"] is False and form in ("seed", "rng-int"):
                 failures.append({"key": f"C01/Model.reset_rng/explicit-seed-does-not-replay/{form}", "op": i,
                                  "what": f"Model({form}={job['seed']}): reset_rng({job['seed']}) does not replay the first {job['n']} draws of model.rng"})
@@ -995,6 +1039,7 @@ def run_env_case(case):
 T_SITE = {"agents": "Model.agents", "bytype": "Model.agents_by_type", "select": "AgentSet.select", "selectall": "AgentSet.select",
           "shuffle": "AgentSet.shuffle", "sort": "AgentSet.sort", "group": "AgentSet.groupby", "copy": "copy.copy(AgentSet)",
           "new": "AgentSet", "space_agents": "DiscreteSpace.agents", "legacy_agents": "_Grid.agents",
+          "xagents": "legacy-or-continuous-space.agents",
           "call": "DiscreteSpace.all_cells", "cempties": "DiscreteSpace.empties", "cnbhd": "Cell.get_neighborhood",
           "cselect": "CellCollection.select", "cnew": "CellCollection"}
 
@@ -1057,7 +1102,15 @@ def run_world_case(case):
     class WA1(WA0):
         pass
 
-    KL = [WA0, WA1]
+    from mesa.experimental.continuous_space import ContinuousSpace as XCS
+    from mesa.experimental.continuous_space import ContinuousSpaceAgent
+
+    class WC(ContinuousSpaceAgent):
+        def __init__(self, space, model, key=0):
+            super().__init__(space, model)
+            self.key = key
+
+    KL = [WA0, WA1, WC]
     model = mesa.Model(seed=case["seed"])
     model.random.__class__ = RecRandom
     model.random.log = []
@@ -1089,6 +1142,51 @@ def run_world_case(case):
     for aid, x, y in case["lplace"]:
         if aid in byid and byid[aid].pos is None and lg.is_cell_empty((x, y)):
             lg.place_agent(byid[aid], (x, y))
+    # further spaces: legacy MultiGrid / hex grids / NetworkGrid / ContinuousSpace (no generator of their own) and the
+    # experimental ContinuousSpace (built with or without model.random); cells / nodes are addressed by an index 0..5
+    import networkx as _nx
+
+    from mesa.space import ContinuousSpace as LCS
+    from mesa.space import HexMultiGrid, HexSingleGrid, MultiGrid, NetworkGrid
+
+    XS = []
+    with warnings.catch_warnings(record=True) as wl:
+        warnings.simplefilter("always")
+        for kind in case.get("xspaces", []):
+            if kind == "multi":
+                XS.append((kind, MultiGrid(3, 2, False)))
+            elif kind == "hexsingle":
+                XS.append((kind, HexSingleGrid(3, 2, False)))
+            elif kind == "hexmulti":
+                XS.append((kind, HexMultiGrid(3, 2, False)))
+            elif kind == "network":
+                XS.append((kind, NetworkGrid(_nx.path_graph(6))))
+            elif kind == "cont_legacy":
+                XS.append((kind, LCS(3, 2, False)))
+            elif kind in ("cont_exp", "cont_exp_unseeded"):
+                nw = len([w for w in wl if "Random number generator not specified" in str(w.message)])
+                XS.append((kind, XCS([[0, 3], [0, 2]], torus=False, random=rnd if kind == "cont_exp" else None, n_agents=3)))
+                if kind == "cont_exp_unseeded" and len([w for w in wl if "Random number generator not specified" in str(w.message)]) == nw:
+                    fail("C01/ContinuousSpace/silently-unseeded", -1, "an experimental ContinuousSpace built with random=None issued no UserWarning")
+    xwhere = {}     # agent id -> index of the further space it is in
+
+    def xpos(kind, k):
+        if kind in ("multi", "hexsingle", "hexmulti"):
+            return (k // 2, k % 2)
+        if kind == "network":
+            return k
+        return (0.25 + 0.5 * k, 0.5)
+
+    def xagents(si):
+        with warnings.catch_warnings(record=True) as wl:
+            warnings.simplefilter("always")
+            r = XS[si][1].agents
+        warned = any("Random number generator not specified" in str(w.message) for w in wl)
+        return r, warned
+
+    def in_lg(a):
+        return any(lg._grid[x][y] is a for x in range(case["lw"]) for y in range(case["lh"]))
+
     init_cells = [[i, [a.unique_id for a in c._agents]] for i, c in enumerate(cells)]
     init_lgrid = [[list(a.pos), a.unique_id] for a in byid.values() if a.pos is not None]
     init_agents = [[a.unique_id, KL.index(type(a)), a.key] for a in model.agents]
@@ -1097,7 +1195,7 @@ def run_world_case(case):
         return 0 if getattr(c, "random", None) is rnd else 1
 
     def legacy_nonempty():
-        return any(a.pos is not None for a in model.agents)
+        return any(lg._grid[x][y] is not None for x in range(case["lw"]) for y in range(case["lh"]))
 
     def ev(t, i):
         """-> (collection, model term, must_be_seeded: True/False/None)"""
@@ -1118,6 +1216,18 @@ def run_world_case(case):
             if not ne and not any("Random number generator not specified" in str(w.message) for w in wl):
                 fail("C01/_Grid.agents/silently-unseeded", i, "the .agents of an empty legacy grid got an unseeded generator without a UserWarning")
             return r, "TLegacyAgents", ne
+        if k == "xagents":
+            si = t[1]
+            if not 0 <= si < len(XS):
+                raise _NoSuch(f"(TXAgents {L.z(si)})")
+            kind = XS[si][0]
+            r, warned = xagents(si)
+            if kind.startswith("cont_exp"):
+                return r, f"(TXAgents {si})", kind == "cont_exp"
+            if len(r) == 0 and not warned:
+                fail(f"C01/{type(XS[si][1]).__name__}.agents/silently-unseeded", i,
+                     "the .agents of an empty legacy space got an unseeded generator without a UserWarning")
+            return r, f"(TXAgents {si})", len(r) > 0
         try:
             c, m, sd = ev(t[1], i)
         except _NoSuch as e:   # keep the outcomes recorded below, wrap the rest syntactically: the model fails at the same place
@@ -1244,8 +1354,11 @@ def run_world_case(case):
                 if a is None or a not in model.agents:
                     obs.append([-2])
                 else:
-                    if a.pos is not None:
+                    if in_lg(a):
                         lg.remove_agent(a)
+                    elif op[1] in xwhere and not XS[xwhere[op[1]]][0].startswith("cont_exp"):
+                        XS[xwhere[op[1]]][1].remove_agent(a)
+                    xwhere.pop(op[1], None)
                     a.remove()
                     obs.append([0] + [x.unique_id for x in model.agents])
                 ops_m.append(f"Remove {op[1]}")
@@ -1276,7 +1389,7 @@ def run_world_case(case):
                 ops_m.append(f"LPlace {op[1]} {L.zpair(p)}")
             elif k == "lremove":
                 a = byid.get(op[1])
-                if a is None or a not in model.agents or a.pos is None:
+                if a is None or a not in model.agents or not in_lg(a):
                     obs.append([-2])
                 else:
                     lg.remove_agent(a)
@@ -1284,7 +1397,7 @@ def run_world_case(case):
                 ops_m.append(f"LRemove {op[1]}")
             elif k == "mte":
                 a = byid.get(op[1])
-                if a is None or a not in model.agents:
+                if a is None or a not in model.agents or op[1] in xwhere:
                     obs.append([-2])
                     ops_m.append(f"MoveToEmpty {op[1]} [] 0 []")
                 else:
@@ -1332,6 +1445,51 @@ def run_world_case(case):
                         lg.remove_agent(a)
                         lg.place_agent(a, dest)
                         rnd.setstate(st_after)
+            elif k in ("xplace", "xremove", "xcreate"):
+                si = op[1]
+                if not 0 <= si < len(XS):
+                    obs.append([-2])
+                    ops_m.append({"xplace": f"XPlace {L.z(si)} 0 0", "xremove": f"XRemove {L.z(si)} 0", "xcreate": f"XCreate {L.z(si)} 0"}[k])
+                else:
+                    kind, sp = XS[si]
+                    legacy_kind = not kind.startswith("cont_exp")
+                    if k == "xcreate":
+                        ops_m.append(f"XCreate {si} {L.z(op[2])}")
+                        if legacy_kind:
+                            obs.append([-2])
+                        else:
+                            a = WC(sp, model, op[2])
+                            byid[a.unique_id] = a
+                            xwhere[a.unique_id] = si
+                            r, _w = xagents(si)
+                            obs.append([gflag(r)] + [x.unique_id for x in r])
+                            if kind == "cont_exp" and gflag(r) != 0:
+                                fail("C01/ContinuousSpace.agents/generator-not-propagated", i, "experimental ContinuousSpace(random=model.random).agents does not carry model.random")
+                    elif k == "xplace":
+                        a = byid.get(op[2])
+                        kk = op[3]
+                        ops_m.append(f"XPlace {si} {L.z(op[2])} {L.z(kk)}")
+                        occupied = kind == "hexsingle" and not sp.is_cell_empty(xpos(kind, kk))
+                        if not legacy_kind or a is None or a not in model.agents or a.pos is not None or op[2] in xwhere or occupied:
+                            obs.append([-2])
+                        else:
+                            sp.place_agent(a, xpos(kind, kk))
+                            xwhere[op[2]] = si
+                            r, warned = xagents(si)
+                            obs.append([gflag(r)] + [x.unique_id for x in r])
+                            if gflag(r) != 0:
+                                fail(f"C01/{type(sp).__name__}.agents/generator-not-propagated", i,
+                                     f"{type(sp).__name__}.agents of a space holding agents of the model does not carry model.random")
+                    else:
+                        a = byid.get(op[2])
+                        ops_m.append(f"XRemove {si} {L.z(op[2])}")
+                        if not legacy_kind or a is None or xwhere.get(op[2]) != si:
+                            obs.append([-2])
+                        else:
+                            sp.remove_agent(a)
+                            del xwhere[op[2]]
+                            r, _w = xagents(si)
+                            obs.append([0] + [x.unique_id for x in r])
             elif k == "reset":
                 explicit = bool(op[1]) if len(op) > 1 else False
                 pre = {"model.agents": model.agents, "space": space, "space.all_cells": space.all_cells, "space[cell 0]": cells[0],
@@ -1454,7 +1612,7 @@ def run_world_case(case):
                 a = byid.get(op[1])
                 ps = [tuple(p) for p in op[2]]
                 closest = bool(op[3])
-                ok = a is not None and a in model.agents and a.pos is not None
+                ok = a is not None and a in model.agents and in_lg(a)
                 if not ok:
                     obs.append([-2])
                     ops_m.append(f"MoveOneOf {op[1]} {L.lst([L.zpair(p) for p in ps])} {L.b(closest)} [] 0")
@@ -1527,6 +1685,8 @@ def _show_term(t):
             "cempties": "space.empties"}
     if k in leaf:
         return leaf[k]
+    if k == "xagents":
+        return f"further_space[{t[1]}].agents"
     if k == "bytype":
         return f"model.agents_by_type[K{t[1]}]"
     if k == "cnbhd":
@@ -1547,7 +1707,7 @@ def run_impl(case):
 # ------------------------------------------------------------------ Gallina printer
 def coq_case(case):
     if case.get("kind") == "env":
-        return "{| c_world := {| w_agents := []; w_next := 1; w_sgen := 0; w_cells := []; w_conn := []; w_lw := 0; w_lh := 0; w_lgrid := []; w_cutoff := 0 |}; c_ops := [] |}"
+        return "{| c_world := {| w_agents := []; w_next := 1; w_sgen := 0; w_cells := []; w_conn := []; w_lw := 0; w_lh := 0; w_lgrid := []; w_cutoff := 0; w_xspaces := [] |}; c_ops := [] |}"
     fm = case.get("_ops_for_model")
     if fm is None:
         fm = run_world_case(case)["ops_for_model"]
@@ -1557,8 +1717,16 @@ def coq_case(case):
     conn = L.lst([L.pair(L.z(i), L.zlist(v)) for i, v in w["conn"]])
     lgrid = L.lst([L.pair(L.zpair(p), L.z(a)) for p, a in w["lgrid"]])
     world = (f"{{| w_agents := {ags}; w_next := {w['next']}; w_sgen := {0 if case['space_seeded'] else 1}; w_cells := {cells}; "
-             f"w_conn := {conn}; w_lw := {case['lw']}; w_lh := {case['lh']}; w_lgrid := {lgrid}; w_cutoff := {w['cutoff']} |}}")
+             f"w_conn := {conn}; w_lw := {case['lw']}; w_lh := {case['lh']}; w_lgrid := {lgrid}; w_cutoff := {w['cutoff']}; "
+             f"w_xspaces := {L.lst([_xspace_lit(k) for k in case.get('xspaces', [])])} |}}")
     return f"{{| c_world := {world}; c_ops := {L.lst(fm['ops'])} |}}"
+
+
+def _xspace_lit(kind):
+    legacy = not kind.startswith("cont_exp")
+    keyed = kind in ("multi", "hexsingle", "hexmulti", "network")
+    return (f"{{| xs_legacy := {L.b(legacy)}; xs_keyed := {L.b(keyed)}; xs_single := {L.b(kind == 'hexsingle')}; "
+            f"xs_gen := {0 if kind == 'cont_exp' else 1}; xs_items := [] |}}")
 
 
 def op_kinds(case):
@@ -1588,9 +1756,11 @@ def _gen_term(rng, depth, nkeys=4):
             return ["agents"]
         if r < 0.65:
             return ["bytype", rng.randrange(2)]
-        if r < 0.85:
+        if r < 0.78:
             return ["space_agents"]
-        return ["legacy_agents"]
+        if r < 0.88:
+            return ["legacy_agents"]
+        return ["xagents", rng.randrange(4)]
     k = rng.choice(["select", "select", "selectall", "shuffle", "shuffle", "sort", "group", "copy", "new"])
     inner = _gen_term(rng, depth - 1)
     if k == "select":
@@ -1631,12 +1801,33 @@ def _gen_world(rng, big=False):
               if j < len(cells)] if rng.random() < 0.85 else []
     case = {"kind": "world", "seed": rng.randrange(10**6), "agents": agents, "space_seeded": rng.random() < 0.8, "cw": cw, "ch": ch,
             "ctorus": rng.random() < 0.5, "moore": rng.random() < 0.5, "cell_of": cell_of, "lw": lw, "lh": lh, "lplace": lplace,
-            "salt": rng.randrange(1000), "ops": []}
+            "salt": rng.randrange(1000), "ops": [],
+            "xspaces": [rng.choice(["multi", "hexsingle", "hexmulti", "network", "cont_legacy", "cont_exp", "cont_exp", "cont_exp_unseeded"])
+                        for _ in range(rng.randint(0, 3))]}
     nid = n
+    nx_ = len(case["xspaces"])
     placed = [x[0] for x in lplace]
     for _ in range(rng.randint(3, 12)):
         r = rng.random()
-        if r < 0.03:
+        if nx_ and rng.random() < 0.22:
+            si = rng.randrange(nx_ + 1) if rng.random() < 0.1 else rng.randrange(nx_)
+            kind = case["xspaces"][si] if si < nx_ else "multi"
+            rr = rng.random()
+            if kind.startswith("cont_exp") and rr < 0.8:
+                case["ops"].append(["xcreate", si, rng.randrange(4)])
+                nid += 1
+                placed.append(nid)
+            elif rr < 0.6:
+                unpl = [x for x in range(1, nid + 1) if x not in placed]
+                who = rng.choice(unpl) if unpl and rng.random() < 0.85 else rng.randint(1, max(1, nid))
+                case["ops"].append(["xplace", si, who, rng.randrange(6)])
+                placed.append(who)
+            elif rr < 0.75:
+                case["ops"].append(["xremove", si, rng.randint(1, max(1, nid))])
+            else:
+                case["ops"].append([rng.choice(["derive", "derive", "shuffle_do"]), rng.choice([["xagents", si], ["shuffle", ["xagents", si]],
+                                                                                             ["select", ["xagents", si], 1, None]])])
+        elif r < 0.03:
             case["ops"].append(["reset", rng.random() < 0.5])
         elif r < 0.08:
             case["ops"].append(["shuffle_do", _gen_term(rng, rng.randint(0, 3))])
@@ -1778,6 +1969,22 @@ def enumerate_cases(tier, broken=False):
                                                    ["shuffle_do", ["agents"]], ["shuffle_do", ["space_agents"]], ["rcell", ["cnew", ["call"], False]],
                                                    ["reset", False], ["derive", ["shuffle", ["agents"]]], ["derive", ["bytype", 1]], ["derivec", ["cempties"]],
                                                    ["shuffle_do", ["space_agents"]], ["rcell", ["cnbhd", 0, True]], ["reset", True], ["sre"], ["tre"]]}
+    kinds = ["multi", "hexsingle", "hexmulti", "network", "cont_legacy", "cont_exp", "cont_exp_unseeded"]
+    for rep in range(2):
+        ops = []
+        for si, kind in enumerate(kinds):
+            ops.append(["derive", ["xagents", si]])
+            if kind.startswith("cont_exp"):
+                ops += [["xcreate", si, 1], ["xcreate", si, 2], ["derive", ["shuffle", ["xagents", si]]], ["shuffle_do", ["xagents", si]],
+                        ["remove", 5 + (si - 5) * 2 + 1]]
+            else:
+                a, b = (si % 4) + 1, ((si + 1) % 4) + 1
+                ops += [["xplace", si, a, 4 if rep else 1], ["xplace", si, b, 1], ["derive", ["xagents", si]], ["derive", ["sort", ["xagents", si], True]],
+                        ["shuffle_do", ["xagents", si]], ["xplace", si, a, 0], ["xremove", si, a], ["xremove", si, b], ["derive", ["xagents", si]]]
+            ops.append(["derive", ["xagents", si]])
+        yield {"kind": "world", "seed": 11 + rep, "agents": [[0, 1], [1, 1], [0, 2], [1, 3]], "space_seeded": True, "cw": 1, "ch": 1,
+               "ctorus": False, "moore": True, "cell_of": [], "lw": 2, "lh": 2, "lplace": [], "salt": 1, "xspaces": kinds,
+               "ops": ops + [["xplace", 0, 1, 0], ["mte", 1], ["lplace", 1, 0, 0], ["remove", 1], ["derive", ["xagents", 0]], ["derive", ["xagents", 9]]]}
     lim = 3
     for lw in range(1, lim + 1):
         for lh in range(1, lim + 1):
@@ -1797,7 +2004,9 @@ RULE = ("world histories = one mesa.Model(seed) with <= 7 agents of two classes,
         "model.random, a legacy SingleGrid (1..3 x 1..3, every 8th 6..7 x 6..7 so that the rejection branch of move_to_empty "
         "runs) whose _empties set iterates in a salted random order, and 3-12 operations: derivation terms of depth <= 4 over "
         "select/shuffle/sort/groupby/copy/AgentSet()/space.agents/grid.agents, cell-collection terms, create_agents, remove, "
-        "place, remove_agent, move_to_empty, move_agent_to_one_of (random / closest), reset_randomizer (with / without seed), shuffle_do, select_random_cell / _agent on "
+        "place, remove_agent, up to three further spaces (MultiGrid, HexSingle/HexMultiGrid, NetworkGrid, legacy and experimental "
+        "ContinuousSpace, the latter with or without model.random) with place / remove / create and their .agents, "
+        "move_to_empty, move_agent_to_one_of (random / closest), reset_randomizer (with / without seed), shuffle_do, select_random_cell / _agent on "
         "derived cell collections, select_random_empty_cell (both strategies); env histories = each bundled example and batches of random "
         "API scripts run in fresh interpreters under several PYTHONHASHSEED values, fresh and after other models ran in the "
         "process, reset_randomizer/reset_rng replays for five seed forms, batch_run with 1/2(/3) spawn workers; "
